@@ -39,6 +39,16 @@ pub fn verify_stark_proof<
     verifier_circuit_fri_params: Option<FriParams>,
 ) -> Result<()> {
     ensure!(proof_with_pis.public_inputs.len() == S::PUBLIC_INPUTS);
+    // Deriving the challenges already indexes into the proof (`recover_degree_bits`, the
+    // auxiliary openings): check its shape first.
+    validate_proof_shape(
+        &stark,
+        &proof_with_pis.proof,
+        &proof_with_pis.public_inputs,
+        config,
+        0,
+        0,
+    )?;
     let mut challenger = Challenger::<F, C::Hasher>::new();
 
     let challenges = proof_with_pis.get_challenges(
@@ -230,6 +240,18 @@ where
     C: GenericConfig<D, F = F>,
     S: Stark<F, D>,
 {
+    // `recover_degree_bits` reads the first Merkle path of the first FRI query round and
+    // subtracts `rate_bits` from its length plus `cap_height`: make sure that is possible.
+    let first_path_len = proof
+        .opening_proof
+        .query_round_proofs
+        .first()
+        .and_then(|round| round.initial_trees_proof.evals_proofs.first())
+        .map(|(_, merkle_proof)| merkle_proof.siblings.len())
+        .ok_or_else(|| anyhow!("FRI proof without query rounds or initial evaluations"))?;
+    let lde_bits = config.fri_config.cap_height + first_path_len;
+    ensure!(lde_bits >= config.fri_config.rate_bits && lde_bits <= F::TWO_ADICITY);
+
     let degree_bits = proof.recover_degree_bits(config);
 
     let StarkProof {
@@ -265,7 +287,8 @@ where
     ensure!(local_values.len() == S::COLUMNS);
     ensure!(next_values.len() == S::COLUMNS);
     ensure!(if let Some(quotient_polys) = quotient_polys {
-        quotient_polys.len() == stark.num_quotient_polys(config)
+        stark.num_quotient_polys(config) != 0
+            && quotient_polys.len() == stark.num_quotient_polys(config)
     } else {
         stark.num_quotient_polys(config) == 0
     });
@@ -316,7 +339,9 @@ where
             .ok_or_else(|| anyhow!("Missing auxiliary_polys_next"))?;
 
         if let Some(ctl_zs_first) = ctl_zs_first {
-            ensure!(ctl_zs_first.len() == num_ctl_zs);
+            ensure!(stark.requires_ctls() && ctl_zs_first.len() == num_ctl_zs);
+        } else {
+            ensure!(!stark.requires_ctls());
         }
 
         ensure!(auxiliary_polys_cap.len() == 1 << cap_height);
@@ -326,6 +351,7 @@ where
         ensure!(auxiliary_polys_cap.is_none());
         ensure!(auxiliary_polys.is_none());
         ensure!(auxiliary_polys_next.is_none());
+        ensure!(ctl_zs_first.is_none());
     }
 
     Ok(())
